@@ -1,5 +1,7 @@
 pub mod c01;
 pub mod c02;
+pub mod c03;
+pub mod c05;
 pub mod c14;
 pub mod contract;
 pub mod cgen;
@@ -11,6 +13,8 @@ pub fn dispatch(id: &str, args: &RunArgs) -> i32 {
     match id {
         "C01" => run_prop(&c01::C01, args),
         "C02" => run_prop(&c02::C02, args),
+        "C03" => run_prop(&c03::C03, args),
+        "C05" => run_prop(&c05::C05, args),
         "C14" => run_prop(&c14::C14, args),
         _ => {
             eprintln!("unknown property id {id}");
